@@ -113,7 +113,7 @@ EXTRA = {
  "C15": "Added: C15_sso_program / C15_concurrent_sso (the SSO handler as a program over atomic storage operations; N concurrent SSO requests under every schedule are answered as alone on the initial storage and never share a stored request), C15_id_legal (NewID() values are legal xs:ID), C15_callbacks_among_sso (callbacks for requests that existed before the run are isolated among concurrently creating SSO threads).",
  "C16": "Added: registration keeps the consumer services as written and in document order (sprec_of_doc, checked in the SSO / logout / attribute-query correspondences); C16_member without hypothesis; C16_rule_any_metadata (exact rule for arbitrary registered metadata, entries with empty Location included).",
  "C17": "Added: C17_only_safe_schemes (any scheme other than http / https / mailto yields the fail-safe action).",
- "C18": "Added: C18_struct_document / C18_schema_names / C18_raw_xml_fields over a schema-driven model of encoding/xml's Marshal (Xml/Schema.v over the struct tags go2v copies into Gen/Schema.v); correspondence KStruct (values of random shape, byte for byte) KBuilt (every reply of the flows rebuilt from the translated builders + schema) and KUnm (the library decoders against a model of Unmarshal over the same schema).",
+ "C18": "Added: C18_struct_document / C18_schema_names / C18_raw_xml_fields over a schema-driven model of encoding/xml's Marshal (Xml/Schema.v over the struct tags go2v copies into Gen/Schema.v); correspondence KStruct (values of random shape, byte for byte) KBuilt (every reply of the flows rebuilt from the translated builders + schema) and KUnm (the library decoders against a model of Unmarshal over the same schema); C18_roundtrip_logout_response / _failed_response / _success_response (built documents decode back, through both models, to the field values put in, for all strings).",
  "C20": "Added: C20_repeat (n evaluations of one chain value: n times the same verdict and events), C20_handlers_use_checker (the handler models' chain evaluation is the generated checker's).",
 }
 for _k, _v in EXTRA.items():
